@@ -34,6 +34,8 @@ def parts(tier):
     return [
         Part('continuous', schedgen.histories(max_ops=40 if not T else 80, big=T), quick=200, thorough=1000),
         Part('jsrun', schedgen.histories(max_ops=25 if not T else 50, big=T, cls='jsrun', app=False), quick=40, thorough=200),
+        Part('jsrun_blocked_resources', schedgen.histories(max_ops=25 if not T else 50, big=T, cls='jsrun', app=False,
+                                                           blocked_focus=True), quick=40, thorough=300),
         Part('nodelist', nodelistsim.nl_cases(), quick=250, thorough=2500),
         Part('nodelist_numa', nodelistsim.numa_cases(), quick=60, thorough=600),
         # (b) executor half: every accepted task asks for its release exactly once, whatever
